@@ -139,6 +139,13 @@ func (u *Universe) NewValue(rng *rand.Rand, big bool, rootFragment []byte) ([]by
 	u.mu.Unlock()
 	var b []byte
 	tag := []byte(fmt.Sprintf("v%d|", ctr))
+	if !u.FragBoost && len(rootFragment) > 44 {
+		// Outside the crash driver (which recognises them) a value never holds a
+		// COMPLETE copy of an earlier root record: reverts re-create offsets, the
+		// copy could land exactly where that record once stood and would then be
+		// a self-consistent root record at its position.  Its first byte goes.
+		rootFragment = rootFragment[1:]
+	}
 	switch r := rng.Intn(20); {
 	case r == 0:
 		b = tag[:0] // may collide with another empty value: interned to the same id
